@@ -15,7 +15,7 @@ RULE = ("cases = trial kind (13 kinds) x norb x (n_up,n_dn) x seed; each case dr
         "non-orthonormal walkers and judges single-walker unrestricted / restricted entry points, batched list/array "
         "evaluation for several n_batch, and (single-determinant, NOCI) the 1-RDM; non-trivial = |<psi|phi>| >= 1e-6 |psi||phi| "
         "and the Green's-function denominator has cond <= 1e8 (else skipped and counted); distinct = distinct descriptor")
-MIN_NONTRIVIAL = {"quick": 150, "thorough": 1200}
+MIN_NONTRIVIAL = {"quick": 150, "thorough": 900}
 TIMEOUT = {"quick": 1200, "thorough": 7200}
 ASSUMPTIONS = [
     "trial parameters are real (complex trial orbitals are outside the admissible set), walkers complex",
